@@ -202,12 +202,14 @@ def listenerAllowed (w : World) (gw : Gateway) (r : Route) (l : Listener) : Bool
   | some a => kindAllowed r a.kinds && nsAllowed w gw r a.nss
 
 /-- Two variants of the code are modelled, selected by `fx`:
-`fx = false`: the code as found — `syncTCPRouteGateway` never reads `listener.Protocol`;
-`fx = true`: the repaired code (/verif/.build/c10-fix-1.patch) — `syncTCPRouteGateway` skips a listener
-whose protocol is neither `TCP` nor `TLS`.  The driver picks the variant from the regenerated fact
-`c10TcpProtocolChecked`. -/
+`fx = true`: the current code (repaired, /repo fbb19ce) — `syncTCPRouteGateway` skips a listener whose
+protocol is not empty and neither `TCP` nor `TLS` (an empty protocol, which the API server never
+produces, still attaches);
+`fx = false`: the code as first found — `syncTCPRouteGateway` never read `listener.Protocol` (kept
+for the historical witnesses).  The driver picks the variant from the regenerated fact
+`c10TcpProtocolChecked` (the exact three comparisons of the repaired code). -/
 def protoGuard (fx : Bool) (r : Route) (l : Listener) : Bool :=
-  !fx || !r.tcp || l.proto == "TCP" || l.proto == "TLS"
+  !fx || !r.tcp || l.proto == "" || l.proto == "TCP" || l.proto == "TLS"
 
 /-- the decision of the code for one (route, parentRef, gateway, listener) -/
 def attaches (fx : Bool) (w : World) (r : Route) (pr : ParentRef) (gw : Gateway) (l : Listener) : Bool :=
@@ -446,8 +448,10 @@ def KindListed (r : Route) (a : Allowed) : Prop :=
 /-- Gateway API: the kinds a listener may accept are bounded by its protocol.  Documented
 (gateway-api.md, Conformance): "Listener Port and Protocol are implemented for TCPRoute, but they are
 not implemented for HTTPRoute".  So an HTTPRoute is compatible with every listener, a TCPRoute only
-with `TCP` (or `TLS`) listeners. -/
-def ProtoCompat (r : Route) (l : Listener) : Prop := r.tcp = true → (l.proto = "TCP" ∨ l.proto = "TLS")
+with `TCP` (or `TLS`) listeners.  An empty protocol (required field: never produced by the API
+server) is "unspecified" and puts no bound. -/
+def ProtoCompat (r : Route) (l : Listener) : Prop :=
+  r.tcp = true → (l.proto = "" ∨ l.proto = "TCP" ∨ l.proto = "TLS")
 
 def TermHolds (ls : List (String × String)) (t : Term) : Prop :=
   (t.op = "=" ∧ ∃ v, t.vals = [v] ∧ (t.key, v) ∈ ls) ∨
@@ -521,7 +525,7 @@ def specConj (w : World) (r : Route) (pr : ParentRef) (gw : Gateway) (l : Listen
     kind := (match l.allowed with
       | none => false
       | some a => a.kinds.isEmpty || a.kinds.any fun k => (k.group == none || k.group == some gwGroup) && k.kind == routeKind r),
-    proto := !r.tcp || l.proto == "TCP" || l.proto == "TLS",
+    proto := !r.tcp || l.proto == "" || l.proto == "TCP" || l.proto == "TLS",
     nsr := (match l.allowed with
       | none => false
       | some a =>
@@ -633,7 +637,13 @@ def nodupStr (l : List String) : Bool := (dedupStr l).length == l.length
 def weightsOK (groups : List (Int × List String)) (ss : List Server) : Bool :=
   let gs := takeGroups groups ss
   gs.all (fun g => match g.2 with | [] => true | s :: rest => rest.all (·.weight = s.weight)) &&
-  (C16.oracle (gs.map (·.1)) (gs.map fun g => match g.2 with | [] => none | s :: _ => some s.weight)).isNone
+  -- the C16 Spec clauses range / zero-iff / order / share (the precision of the binary32 arithmetic
+  -- beyond them is C16's subject; the exact weights are compared with the C16 model by `agree`)
+  (let cls := gs.map (·.1)
+   let out := gs.map fun g => match g.2 with | [] => none | s :: _ => some s.weight
+   let l := C16.live cls out
+   l.all C16.specRange && l.all C16.specZero &&
+   (l.all fun p => l.all fun q => C16.specOrder p q) && (l.all fun p => l.all fun q => C16.specShare p q))
 
 def firstSome {α} (l : List α) (f : α → Option String) : Option String := l.findSome? f
 
